@@ -12,7 +12,8 @@
 From Coq Require Import String Permutation.
 From Statham.Model Require Import Str Json Elem PyNum Validate Orderer Tables Repr Meta Annot Names.
 From Statham.Generated Require Gen_orderer_paths Gen_signatures.
-From Statham.Proofs Require Import StrFacts OrdererLoop Agree_orderer ReprProof MetaProof AnnotProof ImportsProof NamesProof.
+From Statham.Proofs Require Import StrFacts OrdererLoop Agree_orderer ReprProof MetaProof AnnotProof ImportsProof NamesProof ParseReplay.
+From Statham.Model Require Import Parser Plain2.
 Local Open Scope string_scope.
 Local Open Scope list_scope.
 
@@ -61,3 +62,16 @@ Proof. exact title_format_titled. Qed.
 Theorem C02_positions_reached :
   forallb (fun pp => mem_str (snd pp) Gen_orderer_paths.paths) element_positions = true.
 Proof. exact orderer_positions_covered. Qed.
+
+(* (6) one class per distinct object schema: the parse state only grows, and parsing the SAME schema
+       again - a definition referenced a second time, the root's definitions parsed after the root -
+       in any later state returns the very same element and adds nothing: the de-duplication finds,
+       for every class the schema builds, the class it produced the first time.  Premise: the classes
+       of the later state are equal to themselves (true of every well-formed class, C17_reflexive;
+       decided on the model's final state on every run). *)
+Theorem C02_reparse_same_class : forall cfg S st e st', parse_element cfg S st = POk (e, st') ->
+  ext st st' /\ forall st2, ext st' st2 -> refl_state st2 -> parse_element cfg S st2 = POk (e, st2).
+Proof. exact replay. Qed.
+Print Assumptions C02_reparse_same_class.
+Theorem C02_refl_state_checker : forall st, refl_stateb st = true -> refl_state st.
+Proof. exact refl_stateb_sound. Qed.
